@@ -218,7 +218,11 @@ func (m *collection) mergerWaitForWork(pings []ping) (
 
 	m.m.Lock()
 
-	if m.stackDirtyTop == nil || len(m.stackDirtyTop.a) <= 0 {
+	// A stackDirtyTop without segments is work as well: a batch that
+	// only touched child collections (or only deleted or created one)
+	// leaves no segment at this level, and when it arrived while the
+	// merger was busy there was no waitDirtyIncomingCh to wake it with.
+	if m.stackDirtyTop == nil {
 		m.waitDirtyIncomingCh = make(chan struct{})
 		waitDirtyIncomingCh = m.waitDirtyIncomingCh
 	}
